@@ -261,6 +261,9 @@ func buildTree(root string, entries []any) error {
 		if strOf(e.m["k"]) == "info" {
 			return 1000 + len(e.p)
 		}
+		if strOf(e.m["k"]) == "link" {
+			return 2000 + len(e.p)
+		}
 		return len(e.p)
 	}
 	sort.SliceStable(es, func(i, j int) bool { return rank(es[i]) < rank(es[j]) })
@@ -276,6 +279,14 @@ func buildTree(root string, entries []any) error {
 			n := intOf(e.m["s"])
 			b := fileContent(n, byte(n))
 			if err := os.WriteFile(full, b, 0644); err != nil {
+				return err
+			}
+		case "link": // an alias: absolute target below the same root, as the server's make-alias stores it
+			var tp []string
+			for _, c := range compsOf(e.m["t"]) {
+				tp = append(tp, string(c))
+			}
+			if err := os.Symlink(filepath.Join(append([]string{root}, tp...)...), full); err != nil {
 				return err
 			}
 		case "info":
